@@ -39,30 +39,42 @@ def vc_to_smt2(vc, extra_axioms=(), negate=True):
 
 
 def _run_z3(text, timeout_ms):
-    ctx = z3.Context()
-    s = z3.Solver(ctx=ctx)
-    s.set('timeout', timeout_ms)
-    try:
-        s.from_string(text)
-    except z3.Z3Exception as ex:
-        return 'error', {'msg': str(ex)[:300]}
+    """the quantified query on the z3 5.1 command line binary: an external process, so its time limit is
+    enforced by killing it (z3 does not always honour its own timeout during quantifier instantiation)."""
+    with tempfile.NamedTemporaryFile('w', suffix='.smt2', delete=False) as fh:
+        fh.write(text)
+        if '(check-sat)' not in text:
+            fh.write('\n(check-sat)\n')
+        path = fh.name
     t0 = time.time()
-    r = s.check()
+    secs = max(1, int(round(timeout_ms / 1000.0)))
+    try:
+        p = subprocess.run(['z3-new', '-T:%d' % secs, '-smt2', path], capture_output=True, text=True, timeout=secs + 5)
+        out = (p.stdout.strip().split('\n') or [''])[0]
+    except subprocess.TimeoutExpired:
+        out = 'timeout'
+    finally:
+        os.unlink(path)
     dt = time.time() - t0
-    out = {'time': dt}
-    if r == z3.sat:
-        m = s.model()
-        pv = {}
-        for d in m.decls():
-            if d.name().startswith('probe!'):
-                pv[d.name()[6:]] = str(m[d])
-        out['probes'] = pv
-        out['model'] = str(m)[:4000]
-        return 'sat', out
-    if r == z3.unsat:
-        return 'unsat', out
-    out['reason'] = s.reason_unknown()
-    return 'unknown', out
+    if out == 'unsat':
+        return 'unsat', {'time': dt}
+    if out == 'sat':
+        return 'sat', {'time': dt}
+    return 'unknown', {'time': dt, 'reason': out[:200] or 'no answer'}
+
+
+def _check_with_interrupt(s, ctx, timeout_ms):
+    """z3's own timeout is not always honoured (quantifier instantiation); a timer interrupts the context."""
+    import threading
+    timer = threading.Timer(timeout_ms / 1000.0 + 1.0, ctx.interrupt)
+    timer.daemon = True
+    timer.start()
+    try:
+        return s.check()
+    except z3.Z3Exception:
+        return z3.unknown
+    finally:
+        timer.cancel()
 
 
 def _run_cvc5(text, timeout_ms):
@@ -92,7 +104,7 @@ def _run_cvc5(text, timeout_ms):
 
 
 GROUND_TIMEOUT_MS = int(os.environ.get('PYVC_GROUND_MS', '5000'))
-QUICK_Z3_MS = int(os.environ.get('PYVC_QUICK_Z3_MS', '1500'))
+QUICK_Z3_MS = int(os.environ.get('PYVC_QUICK_Z3_MS', '2000'))
 
 
 def _run_ground(text, timeout_ms):
@@ -108,7 +120,7 @@ def _run_ground(text, timeout_ms):
     s.set('timeout', timeout_ms)
     for f in qf:
         s.add(f)
-    r = s.check()
+    r = _check_with_interrupt(s, z3.main_ctx(), timeout_ms)
     out = {'time': time.time() - t0, 'instances': stats['instances']}
     if r == z3.unsat:
         return 'unsat', out
@@ -121,7 +133,10 @@ def _run_ground(text, timeout_ms):
         out['probes'] = pv
         out['model'] = str(m)[:3000]
         return 'sat', out
-    out['reason'] = s.reason_unknown()
+    try:
+        out['reason'] = s.reason_unknown()
+    except z3.Z3Exception:
+        out['reason'] = 'interrupted'
     return 'unknown', out
 
 
@@ -158,15 +173,58 @@ def solve_one(task):
     return name, 'unknown', out
 
 
+HARD_LIMIT_S = float(os.environ.get('PYVC_HARD_S', '90'))
+
+
+def _worker(task, conn):
+    try:
+        conn.send(solve_one(task))
+    except Exception as ex:      # a crash of a back end is 'unknown', never a verdict
+        conn.send((task[0], 'unknown', {'backend': 'none', 'time': 0, 'reason': 'worker error: %r' % (ex,)}))
+    finally:
+        conn.close()
+
+
 def solve_all(tasks, procs=None):
+    """one process per obligation, at most `procs` at a time, each killed after a hard limit."""
     procs = procs or min(16, os.cpu_count() or 4)
     if not tasks:
         return []
-    if len(tasks) == 1 or procs == 1:
-        return [solve_one(t) for t in tasks]
     ctx = mp.get_context('fork')
-    with ctx.Pool(procs) as pool:
-        return pool.map(solve_one, tasks, chunksize=1)
+    results = [None] * len(tasks)
+    pending = list(range(len(tasks)))
+    running = {}
+    while pending or running:
+        while pending and len(running) < procs:
+            i = pending.pop(0)
+            parent, child = ctx.Pipe(duplex=False)
+            p = ctx.Process(target=_worker, args=(tasks[i], child))
+            p.start()
+            child.close()
+            running[i] = (p, parent, time.time())
+        done = []
+        for i, (p, conn, t0) in running.items():
+            if conn.poll(0):
+                try:
+                    results[i] = conn.recv()
+                except EOFError:
+                    results[i] = (tasks[i][0], 'unknown', {'backend': 'none', 'time': time.time() - t0, 'reason': 'worker died'})
+                p.join(1)
+                done.append(i)
+            elif not p.is_alive():
+                results[i] = (tasks[i][0], 'unknown', {'backend': 'none', 'time': time.time() - t0, 'reason': 'worker died'})
+                done.append(i)
+            elif time.time() - t0 > HARD_LIMIT_S:
+                p.kill()
+                p.join(1)
+                results[i] = (tasks[i][0], 'unknown', {'backend': 'none', 'time': time.time() - t0,
+                                                       'reason': 'hard time limit (%ds) reached' % HARD_LIMIT_S})
+                done.append(i)
+        for i in done:
+            running.pop(i)
+        if not done:
+            time.sleep(0.02)
+    return results
 
 
 # ------------------------------------------------------------------ refutation by grounding
